@@ -118,7 +118,12 @@ func hasTwin(st *lib.Stmt) bool {
 func TestC03(t *testing.T) {
 	rapid.Check(t, func(rt *rapid.T) {
 		kind := lib.GenKind(rt)
-		pairs := lib.GenStore(rt, kind, lib.GenStoreSize(rt))
+		var pairs []lib.Pair
+		if rapid.IntRange(0, 3).Draw(rt, "hostileStore") == 0 {
+			pairs = lib.GenHostileStore(rt) // conversions fail, dynamic types change between rows
+		} else {
+			pairs = lib.GenStore(rt, kind, lib.GenStoreSize(rt))
+		}
 		st := lib.GenAnyStmt(rt, kind, pairs, true)
 		c := &c03Case{Stmt: st, Pairs: pairs, Batch: lib.GenBatchSize(rt), Batch2: rapid.SampledFrom([]int{1, 2, 3, 5, 32, 64}).Draw(rt, "batch2")}
 		lib.Journal("C03", "c03", c)
